@@ -1921,7 +1921,7 @@ impl CanonicalizeContext {
 				let mut not_a_number = false;
 				if i < children.len() {
 					// look at the right siblings and pull in the longest sequence of number/separators -- then check it for validity
-					for sibling in children[i+1..].iter() {
+					for (i_sibling, sibling) in children[i+1..].iter().enumerate() {
 						let sibling = as_element(*sibling);
 						let sibling_name = name(&sibling);
 						if sibling_name == "mn" {
@@ -1940,7 +1940,8 @@ impl CanonicalizeContext {
 							   !(is_block_separator || is_decimal_separator) || 
 							   (is_decimal_separator && has_decimal_separator) {
 								// not a separator or (it is decimal separator and we've already seen a decimal separator)
-								not_a_number = is_decimal_separator && has_decimal_separator;	// e.g., 1.2.3 or 1,2,3
+								// e.g., 1.2.3 or 1,2,3 -- but a second decimal separator that ends the row is punctuation after the number ("x = 1.5.")
+								not_a_number = is_decimal_separator && has_decimal_separator && i + 2 + i_sibling < children.len();
 								break;
 							}
 							has_decimal_separator |= is_decimal_separator;
